@@ -379,8 +379,8 @@ func (srv *Server) makeSelf(listener net.Listener, ntab discoverTable) *discover
 // It blocks until all active connections have been closed.
 func (srv *Server) Stop() {
 	srv.lock.Lock()
-	defer srv.lock.Unlock()
 	if !srv.running {
+		srv.lock.Unlock()
 		return
 	}
 	srv.running = false
@@ -389,6 +389,8 @@ func (srv *Server) Stop() {
 		srv.listener.Close()
 	}
 	close(srv.quit)
+	// the run loop takes the lock (Self) when a handshake completes: do not hold it while waiting for the loop
+	srv.lock.Unlock()
 	srv.loopWG.Wait()
 }
 
